@@ -37,7 +37,7 @@ class C14(Prop):
     id = "C14"
     driver = "Exchange"
     quick_n = 400
-    thorough_n = 12000
+    thorough_n = 80000
     rule = ("random interleavings of quote / discontinuation events over ETF, Index, Stock, Rate, ES futures, "
             "two futures chains (ES month 0, ZN month 1) and string keys, with queries (book, mid, acq, liq) after "
             "every few events; non-trivial = the sequence contains a discontinuation followed by a later quote for the "
